@@ -21,6 +21,9 @@ type Collection struct {
 
 	mu   sync.RWMutex // protects byId and rng from concurrent access
 	byId map[string]*item
+	// pubMu is taken before mu by writers and held until their event is out: events leave in commit order,
+	// without readers waiting behind an event that waits for a slow subscriber
+	pubMu sync.Mutex
 	// rngMu serialises use of rng: ids are generated while holding only the read lock of mu,
 	// so two writers can be generating ids at the same time
 	rngMu sync.Mutex
@@ -111,8 +114,9 @@ func (c *Collection) Update(id string, msg proto.Message, opts ...WriteOption) (
 	}
 
 	var created proto.Message // during create, this is returned by GetFn so concurrent reference checks pass
-	_, newValue, err := GetAndUpdate(
-		&c.mu,
+	var change *CollectionChange
+	_, newValue, err := getAndUpdatePublish(
+		&c.mu, &c.pubMu,
 		func() (item proto.Message, err error) {
 			if created != nil {
 				if _, exists := c.byId[id]; exists {
@@ -165,16 +169,20 @@ func (c *Collection) Update(id string, msg proto.Message, opts ...WriteOption) (
 			}
 			changeTime := writeRequest.updateTime(c.clock) // read once: the stored item and its event carry the same time
 			c.byId[id] = &item{body: msg, changeTime: changeTime}
-			// publish while the write lock is still held, like Delete does: events then reach subscribers in
-			// the order the changes were committed, and a Pull can't open between a commit and its event
-			// (it would get the change twice: in its initial values and as an event).
-			c.bus.Send(context.TODO(), &CollectionChange{
+			change = &CollectionChange{
 				Id:         id,
 				ChangeTime: changeTime,
 				ChangeType: changeType,
 				OldValue:   oldValue,
 				NewValue:   msg,
-			})
+			}
+		},
+		func() {
+			// published in commit order (pubMu), like Delete does: events reach subscribers in the order the
+			// changes were committed, and a Pull can't open between a commit and its event (it would get the
+			// change twice: in its initial values and as an event) - but not under the write lock, so that a
+			// subscriber reading the collection between two receives is not in the way of its own next event.
+			c.bus.Send(context.TODO(), change)
 		})
 
 	if err != nil {
@@ -217,24 +225,28 @@ func (c *Collection) Delete(id string, opts ...WriteOption) (proto.Message, erro
 			return oldVal.body, ExpectedValuePreconditionFailed
 		}
 
+		c.pubMu.Lock()
 		c.mu.Lock()
 		oldVal2, exists2 := c.byId[id]
 		if oldVal2 != oldVal || exists2 != exists {
 			// someone changed something while we were checking the value, try again
 			c.mu.Unlock()
+			c.pubMu.Unlock()
 			oldVal, exists = oldVal2, exists2
 			continue
 		}
 
 		// actually do the delete
 		delete(c.byId, id)
+		changeTime := args.updateTime(c.clock) // honours WithWriteTime like every other write
+		c.mu.Unlock()
 		c.bus.Send(context.TODO(), &CollectionChange{
 			Id:         id,
-			ChangeTime: args.updateTime(c.clock), // honours WithWriteTime like every other write
+			ChangeTime: changeTime,
 			ChangeType: types.ChangeType_REMOVE,
 			OldValue:   oldVal.body,
 		})
-		c.mu.Unlock()
+		c.pubMu.Unlock()
 		return oldVal.body, nil
 	}
 
@@ -369,6 +381,9 @@ func (c *Collection) PullID(ctx context.Context, id string, opts ...ReadOption) 
 func (c *Collection) onUpdate(ctx context.Context, config *ReadRequest) (<-chan any, []idItem) {
 	var res []idItem
 	if !config.UpdatesOnly {
+		// between a commit and its event no subscription may open (it would get the change twice)
+		c.pubMu.Lock()
+		defer c.pubMu.Unlock()
 		c.mu.RLock()
 		defer c.mu.RUnlock()
 		res = c.itemSlice(config)
